@@ -214,11 +214,12 @@ pub fn minimize(desc: RunDesc, sig: &str, first_res: J, budget_s: f64) -> (RunDe
         if c.cfg != m.best.cfg && m.attempt(c) {
             progress = true;
         }
-        for (f, v) in [(0, 0u32), (1, 0u32)] {
+        for (f, v) in [(0, 0u32), (1, 0u32), (2, 0u32)] {
             let mut c = m.best.clone();
             match f {
                 0 => c.cfg.dtor_api = v,
-                _ => c.cfg.pop_policy = v,
+                1 => c.cfg.pop_policy = v,
+                _ => c.cfg.ord_mode = v,
             }
             if c.cfg != m.best.cfg && m.attempt(c) {
                 progress = true;
